@@ -14,6 +14,8 @@ var Scenarios = map[string]func() *Scenario{
 	"C11": C11Scenario,
 	"C12": C12Scenario,
 	"C13": C13Scenario,
+	"C14": C14Scenario,
+	"C15": C15Scenario,
 	"C16": C16Scenario,
 	"C19": C19Scenario,
 }
